@@ -48,3 +48,13 @@ Theorem gen_every_frame_copy_is_between_equal_sizes :
   forall g, In g gen_copy_guards -> forall w h w' h', guard_rejects (snd g) w h w' h' = false <-> (w = w' /\ h = h').
 Proof. intros H g Ig w h w' h'. rewrite forallb_forall in H. exact (copy_guard_exact (snd g) (H g Ig) w h w' h'). Qed.
 
+
+(** Every site that addresses the frame table builds the key (frame, side-or-depth, mipmap): a frame stored by one site
+    (VTF.__init__, VTF.read) is the frame every other site (save, compute_mipmaps, get) finds for the same triple. *)
+Theorem gen_every_frame_key_agrees :
+  forallb (fun k => key_ok (snd k)) gen_key_sites = true ->
+  forall p q, In p gen_key_sites -> In q gen_key_sites ->
+  forall f s m o o', key_of (snd p) f s m o = [f; s; m] /\ key_of (snd q) f s m o' = key_of (snd p) f s m o.
+Proof.
+  intros H p q Ip Iq f s m o o'. rewrite forallb_forall in H. exact (key_sites_agree (snd p) (snd q) (H p Ip) (H q Iq) f s m o o').
+Qed.
